@@ -4,9 +4,9 @@
 //! `VIOLATION property=<id> replay=<path>` line), 2 = harness error.
 
 use serde_json::{Value, json};
-use sim::engine::{Known, execute, load_replay, run_batch};
+use sim::engine::{Known, RunResult, execute_mode, load_replay, replay_json, run_batch, run_one_mode, shrink_with};
 use sim::workload::Prop;
-use sim::world::{Anchors, Stats, install_quiet_panic_hook};
+use sim::world::{Anchors, Op, RunCfg, Stats, Violation, install_quiet_panic_hook};
 use std::collections::HashMap;
 use std::io::Write;
 use std::process::{Command, Stdio};
@@ -42,6 +42,8 @@ fn main() {
         "replay" => replay(&args),
         "digest" => digest(&args),
         "export" => export(&args),
+        "cold-one" => cold_one(&args),
+        "cold-exec" => cold_exec(&args),
         "c14" => sim::bcrypt::main(&args),
         "c16" => sim::residue::main(&args),
         _ => die("unknown subcommand"),
@@ -188,6 +190,29 @@ fn check(args: &[String]) {
         let _ = std::fs::remove_file(format!("{}.il", df));
         seam = json!(seam_tot);
     }
+    // cold-start phase (C15, C12): one history per fresh process, oracles deferred
+    let cold_total: u64 = arg(args, "--cold").and_then(|s| s.parse().ok()).unwrap_or(match (prop, tier.as_str()) {
+        (Prop::C15, "quick") | (Prop::C12, "quick") => 3000,
+        (Prop::C15, _) | (Prop::C12, _) => 200_000,
+        _ => 0,
+    });
+    let mut cold_json = Value::Null;
+    if cold_total > 0 {
+        let c = cold_phase(prop, seed, cold_total, workers, &known_path, &replay_dir, &tmp);
+        cold_json = json!({
+            "what": "one seeded history (<= 24 operations) as the first thing a freshly started process does; no reference is computed until the history has ended, so process-global state is cold when the history's own constructions, conversions and calls run",
+            "processes": c.runs, "nontrivial": c.nontrivial, "distinct_nontrivial": c.digests.len(),
+            "steps": c.stats.steps, "cipher_calls": c.stats.cipher_calls, "conversions": c.stats.op_conv_ref + c.stats.op_conv_val, "clones": c.stats.op_clone,
+            "wall_s": c.wall,
+        });
+        runs += c.runs;
+        nontrivial += c.nontrivial;
+        stats.add(&c.stats);
+        digests.extend(c.digests);
+        violations.extend(c.violations);
+        herr.extend(c.herr);
+        for n in c.notes { if notes.len() < 12 { notes.push(n); } }
+    }
     digests.sort_unstable();
     digests.dedup();
     inter.sort_unstable();
@@ -248,6 +273,7 @@ fn check(args: &[String]) {
                 "stub": ["none natively (CPUID is real, filtered by the mask_aes fault)"]
             },
             "h_portable_xor": format!("{:016x}", portable_xor),
+            "cold_start": cold_json,
             "notes": notes,
         },
         "assumptions": [
@@ -310,11 +336,13 @@ fn check(args: &[String]) {
 
 fn replay(args: &[String]) {
     let path = args.get(2).map(|s| s.as_str()).unwrap_or_else(|| die("replay <file>"));
-    let reg = sim::registry::build();
-    let anchors = Anchors::compute(&reg);
-    install_quiet_panic_hook();
     let s = std::fs::read_to_string(path).unwrap_or_else(|e| die(&format!("read {}: {}", path, e)));
     let v: Value = serde_json::from_str(&s).unwrap_or_else(|e| die(&format!("parse {}: {}", path, e)));
+    let cold = v.get("cold").and_then(|x| x.as_bool()).unwrap_or(false);
+    let reg = sim::registry::build();
+    // a cold-start replay must not construct anything before the recorded history runs
+    let anchors = if cold { Anchors::compute_for(&reg, Some(&[])) } else { Anchors::compute(&reg) };
+    install_quiet_panic_hook();
     match v.get("engine").and_then(|x| x.as_str()) {
         Some("native") => {}
         Some("c14") => return sim::bcrypt::replay(&v),
@@ -323,7 +351,7 @@ fn replay(args: &[String]) {
     }
     let l = load_replay(&reg, &v).unwrap_or_else(|e| die(&e));
     let known = Known::load(arg(args, "--known").unwrap_or("/verif/known_findings.json"));
-    let r = execute(&reg, &anchors, &l.cfg, &l.ops, l.seed, Some(&l.prop), &known);
+    let r = execute_mode(&reg, &anchors, &l.cfg, &l.ops, l.seed, Some(&l.prop), &known, cold);
     if let Some(e) = r.harness_error {
         die(&e);
     }
@@ -404,4 +432,167 @@ fn export(args: &[String]) {
         std::fs::write(&p, serde_json::to_string(&j).unwrap()).unwrap_or_else(|e| die(&format!("write {}: {}", p, e)));
         println!("{} {:016x}", p, r.h_portable);
     }
+}
+
+// ---------------------------------------------------------------------------
+// cold-start engine: one history per freshly started process, oracles deferred to the end
+
+fn run_result_json(reg: &sim::registry::Registry, r: &RunResult) -> Value {
+    json!({
+        "seed": r.seed,
+        "environment": r.cfg.to_json(reg),
+        "ops": r.ops.iter().map(|o| o.to_json(reg)).collect::<Vec<_>>(),
+        "violation": r.violation.as_ref().map(|v| v.to_json()),
+        "notes": r.notes.iter().map(|v| v.to_json()).collect::<Vec<_>>(),
+        "stats": r.stats.to_json(),
+        "h_all": format!("{:016x}", r.h_all),
+        "nontrivial": r.nontrivial(),
+        "harness_error": r.harness_error,
+    })
+}
+
+/// One seeded history as the very first thing this process does (no anchors, no references before the end).
+fn cold_one(args: &[String]) {
+    let reg = sim::registry::build();
+    let anchors = Anchors::compute_for(&reg, Some(&[]));
+    install_quiet_panic_hook();
+    let (prop, _) = common(args);
+    let rs: u64 = arg(args, "--run-seed").and_then(|s| s.parse().ok()).unwrap_or_else(|| die("--run-seed"));
+    let known = Known::load(arg(args, "--known").unwrap_or("/verif/known_findings.json"));
+    let lim = sim::workload::Limits { max_len: Some(24), ..Default::default() };
+    let r = run_one_mode(&reg, &anchors, prop, rs, &known, &lim, true);
+    println!("{}", serde_json::to_string(&run_result_json(&reg, &r)).unwrap());
+}
+
+/// Execute an explicit operation list cold (used by the minimiser and by replay).
+fn cold_exec(args: &[String]) {
+    let path = args.get(2).map(|s| s.as_str()).unwrap_or_else(|| die("cold-exec <file>"));
+    let reg = sim::registry::build();
+    let anchors = Anchors::compute_for(&reg, Some(&[]));
+    install_quiet_panic_hook();
+    let s = std::fs::read_to_string(path).unwrap_or_else(|e| die(&format!("read {}: {}", path, e)));
+    let v: Value = serde_json::from_str(&s).unwrap_or_else(|e| die(&format!("parse {}: {}", path, e)));
+    let l = load_replay(&reg, &v).unwrap_or_else(|e| die(&e));
+    let known = Known::load(arg(args, "--known").unwrap_or("/verif/known_findings.json"));
+    let r = execute_mode(&reg, &anchors, &l.cfg, &l.ops, l.seed, Some(&l.prop), &known, true);
+    println!("{}", serde_json::to_string(&run_result_json(&reg, &r)).unwrap());
+}
+
+pub struct ColdOut {
+    pub runs: u64,
+    pub nontrivial: u64,
+    pub stats: Stats,
+    pub digests: Vec<u64>,
+    pub violations: Vec<Value>,
+    pub herr: Vec<String>,
+    pub notes: Vec<String>,
+    pub wall: f64,
+}
+
+fn spawn_json(exe: &std::path::Path, args: &[String]) -> Result<Value, String> {
+    let out = Command::new(exe).args(args).stdout(Stdio::piped()).stderr(Stdio::piped()).output().map_err(|e| e.to_string())?;
+    let so = String::from_utf8_lossy(&out.stdout);
+    let line = so.lines().last().unwrap_or("");
+    if !out.status.success() {
+        return Err(format!("status {:?}: {}", out.status, String::from_utf8_lossy(&out.stderr).lines().rev().take(3).collect::<Vec<_>>().join(" | ")));
+    }
+    serde_json::from_str(line).map_err(|e| format!("bad child output: {}", e))
+}
+
+fn cold_phase(prop: Prop, seed: u64, total: u64, workers: u64, known_path: &str, replay_dir: &str, tmp: &str) -> ColdOut {
+    let t0 = Instant::now();
+    let exe = std::env::current_exe().unwrap();
+    let reg = sim::registry::build();
+    let parts: Vec<ColdOut> = std::thread::scope(|sc| {
+        let hs: Vec<_> = (0..workers)
+            .map(|w| {
+                let exe = exe.clone();
+                let reg = &reg;
+                sc.spawn(move || {
+                    let mut o = ColdOut { runs: 0, nontrivial: 0, stats: Stats::default(), digests: vec![], violations: vec![], herr: vec![], notes: vec![], wall: 0.0 };
+                    let mut i = w;
+                    while i < total {
+                        let rs = sim::prng::run_seed(seed ^ 0xC01D, i);
+                        let a: Vec<String> = ["cold-one", "--prop", prop.name(), "--run-seed", &rs.to_string(), "--known", known_path].iter().map(|s| s.to_string()).collect();
+                        match spawn_json(&exe, &a) {
+                            Ok(j) => {
+                                o.runs += 1;
+                                o.stats.add(&Stats::from_json(&j["stats"]));
+                                if j["nontrivial"].as_bool().unwrap_or(false) {
+                                    o.nontrivial += 1;
+                                    o.digests.push(u64::from_str_radix(j["h_all"].as_str().unwrap_or("0"), 16).unwrap_or(0));
+                                }
+                                if let Some(e) = j["harness_error"].as_str() {
+                                    o.herr.push(format!("cold run {}: {}", i, e));
+                                }
+                                for n in j["notes"].as_array().cloned().unwrap_or_default() {
+                                    if o.notes.len() < 4 {
+                                        o.notes.push(format!("note: {}-class divergence seen in cold run {} (not this check's property): {}", n["property"].as_str().unwrap_or("?"), i, n["detail"].as_str().unwrap_or("")));
+                                    }
+                                }
+                                if !j["violation"].is_null() && o.violations.len() < 2 {
+                                    // minimise by replaying candidates in fresh processes
+                                    let l = load_replay(reg, &json!({"property": prop.name(), "seed": rs, "environment": j["environment"], "ops": j["ops"]}));
+                                    let v0 = Violation::from_json(&j["violation"]);
+                                    if let (Ok(l), Some(v0)) = (l, v0) {
+                                        let base = format!("{}/{}-cold-{}-{}", replay_dir, prop.name(), seed, i);
+                                        let _ = std::fs::create_dir_all(replay_dir);
+                                        let mk = |cfg: &RunCfg, ops: &[Op], v: &Violation, meta: Value| {
+                                            let mut rj = replay_json(reg, prop.name(), rs, cfg, ops, v, meta);
+                                            rj["cold"] = json!(true);
+                                            rj
+                                        };
+                                        let _ = std::fs::write(format!("{}.orig.json", base), serde_json::to_string_pretty(&mk(&l.cfg, &l.ops, &v0, json!({"run": i, "minimised": false}))).unwrap());
+                                        let rr = RunResult { seed: rs, cfg: l.cfg.clone(), ops: l.ops.clone(), violation: Some(v0.clone()), notes: vec![], stats: Stats::default(), h_all: 0, h_portable: 0, task_order: 0, insts_created: 0, harness_error: None };
+                                        let cand = format!("{}/cold-cand-{}.json", tmp, w);
+                                        let mut exec = |cfg: &RunCfg, ops: &[Op]| -> Option<Violation> {
+                                            let rj = mk(cfg, ops, &v0, json!({}));
+                                            std::fs::write(&cand, serde_json::to_string(&rj).unwrap()).ok()?;
+                                            let a: Vec<String> = ["cold-exec", &cand, "--known", known_path].iter().map(|s| s.to_string()).collect();
+                                            let j = spawn_json(&exe, &a).ok()?;
+                                            Violation::from_json(&j["violation"])
+                                        };
+                                        let (path, vj) = match shrink_with(&rr, prop.name(), &mut exec) {
+                                            Some(s) => {
+                                                let p = format!("{}.min.json", base);
+                                                let _ = std::fs::write(&p, serde_json::to_string_pretty(&mk(&s.cfg, &s.ops, &s.violation, json!({"run": i, "minimised": true, "ops_before": l.ops.len(), "ops_after": s.ops.len(), "shrink_replays": s.replays}))).unwrap());
+                                                (p, s.violation.to_json())
+                                            }
+                                            None => {
+                                                o.herr.push(format!("cold run {}: violation did not reproduce in a fresh cold process: {}", i, v0.detail));
+                                                (format!("{}.orig.json", base), v0.to_json())
+                                            }
+                                        };
+                                        let _ = std::fs::remove_file(&cand);
+                                        o.violations.push(json!({"replay": path, "violation": vj, "run": i, "seed": rs}));
+                                    }
+                                }
+                            }
+                            Err(e) => {
+                                // the child died inside cipher code: report with what we know
+                                o.herr.push(format!("cold run {} (run seed {}) ended abnormally: {}", i, rs, e));
+                            }
+                        }
+                        i += workers;
+                    }
+                    o
+                })
+            })
+            .collect();
+        hs.into_iter().map(|h| h.join().unwrap()).collect()
+    });
+    let mut out = ColdOut { runs: 0, nontrivial: 0, stats: Stats::default(), digests: vec![], violations: vec![], herr: vec![], notes: vec![], wall: 0.0 };
+    for p in parts {
+        out.runs += p.runs;
+        out.nontrivial += p.nontrivial;
+        out.stats.add(&p.stats);
+        out.digests.extend(p.digests);
+        out.violations.extend(p.violations);
+        out.herr.extend(p.herr);
+        out.notes.extend(p.notes);
+    }
+    out.digests.sort_unstable();
+    out.digests.dedup();
+    out.wall = t0.elapsed().as_secs_f64();
+    out
 }
